@@ -23,7 +23,7 @@ func init() { core.Register(c18{}) }
 func (c18) ID() string    { return "C18" }
 func (c18) Level() string { return "exploration" }
 func (c18) Rule() string {
-	return "cases = merge scenarios (histories with keys of length 1..2000 incl. keys made of 0x80..0xff bytes and keys that look like a varint prefix followed by data, deletes, batches, 1..6 output files, empty output, second merge over an adopted one with a stale hint file present, both I/O types); in every third case a writer overwrites or deletes the key Merge is rewriting at the moment the rewritten record is handed to the output file; after EACH successful Merge and before adoption vfmt decodes the hint file and the rewritten data files of <dir>-merge: every entry's (fid, block, offset) must hold a plain record with exactly that key occupying exactly `size` bytes, and the multiset of hinted keys must equal the multiset of keys stored in the rewritten files; then two copies of the directories are opened: A = as left by Merge (adoption through the hint), B = rewritten files moved into place by the harness with no hint file and no merge directory (scan path); dumps, KeyNum and DiskSize-ReclaimableSize of A and B must agree with each other and with the model; the real directory then adopts and is compared too. In every third case the adopting Opens (A, B and the real one) run under a configuration that differs from the one Merge ran under (smaller or larger DataFileSize, other index type, shard count, I/O type): none of these is stored in the directory. Non-trivial: merge whose hint has >=3 entries over >=2 output files incl. >=1 key with a high-bit byte; distinct = hash of (config, op list)"
+	return "cases = merge scenarios (histories with keys of length 1..2000 incl. keys made of 0x80..0xff bytes and keys that look like a varint prefix followed by data, deletes, batches, 1..6 output files, empty output, second merge over an adopted one with a stale hint file present, a successful merge right after an abandoned one on the same handle, both I/O types); in every third case a writer overwrites or deletes the key Merge is rewriting at the moment the rewritten record is handed to the output file; after EACH successful Merge and before adoption vfmt decodes the hint file and the rewritten data files of <dir>-merge: every entry's (fid, block, offset) must hold a plain record with exactly that key occupying exactly `size` bytes, and the multiset of hinted keys must equal the multiset of keys stored in the rewritten files; then two copies of the directories are opened: A = as left by Merge (adoption through the hint), B = rewritten files moved into place by the harness with no hint file and no merge directory (scan path); dumps, KeyNum and DiskSize-ReclaimableSize of A and B must agree with each other and with the model; the real directory then adopts and is compared too. In every third case the adopting Opens (A, B and the real one) run under a configuration that differs from the one Merge ran under (smaller or larger DataFileSize, other index type, shard count, I/O type): none of these is stored in the directory. Non-trivial: merge whose hint has >=3 entries over >=2 output files incl. >=1 key with a high-bit byte; distinct = hash of (config, op list)"
 }
 func (c18) Assumptions() []string {
 	return []string{"vfmt decodes hint and data files independently of the engine"}
@@ -176,6 +176,18 @@ func (c18) Run(c core.Case, w *core.Worker) core.Result {
 		s.Log = append(s.Log, fmt.Sprintf("merge->%v", merr))
 		if merr != nil {
 			res.Add("merges_abandoned", 1)
+			if round == 0 && !s.Dead {
+				// an abandoned Merge followed, on the SAME handle, by one that succeeds: make
+				// room by deleting two thirds of the live keys (nothing the abandoned attempt
+				// left behind may show up in the next hint file)
+				for i, k := range s.M.Keys() {
+					if i%3 != 0 {
+						s.Exec(core.Op{Kind: "del", Key: []byte(k)})
+					}
+				}
+				res.Add("merges_retried_on_the_same_handle_after_an_abandoned_one", 1)
+				continue
+			}
 			break
 		}
 		if round == 1 {
